@@ -37,6 +37,9 @@ ALLOWED_SELF_MUTATORS = {
 }
 
 
+INPLACE_DUNDER = {ast.Add: "__iadd__", ast.Sub: "__isub__", ast.Mult: "__imul__", ast.Div: "__itruediv__", ast.Mod: "__imod__", ast.Pow: "__ipow__"}
+
+
 class Summary:
     def __init__(self):
         self.mutated = {}      # param index -> description of the primitive
@@ -190,7 +193,19 @@ class FuncEffects:
                 if isinstance(s.value, (ast.List, ast.ListComp)):
                     self.mutate(s, cur, "in-place `%s` on a list" % norm_text(s)[:60])
                 else:
-                    env[s.target.id] = FRESH     # Angle/Epoch/number: rebinding to a new object
+                    # `x op= y` calls x.__iop__(y): for the package's classes these return a new
+                    # object (rebinding) - unless the method's summary says it writes to self
+                    dunder = INPLACE_DUNDER.get(type(s.op))
+                    res = FRESH
+                    for key in self.an.methods_by_name.get(dunder, []) if dunder else []:
+                        sm = self.an.summ.get(key)
+                        if sm is None:
+                            continue
+                        if 0 in sm.mutated:
+                            self.mutate(s, cur, "`%s` dispatches to %s, which writes to its own object (%s)" % (norm_text(s)[:40], key, sm.mutated[0]))
+                        if 0 in sm.ret_alias:
+                            res = res | cur
+                    env[s.target.id] = res
             else:
                 self.store(s.target, env, s)
         elif isinstance(s, ast.Return):
